@@ -20,7 +20,7 @@ CLAIMS.update({
          "4.C01"),
  "C03": ("bounded symbolic execution (symx) of the real predictor / RunLength / LZW bit reader / ASCIIHex / PDFStream.decode / PDFParser stream code against reference encoders",
          "For all sample bytes and all per-row PNG filter types within the listed geometries, all run partitions, all bit patterns, the real decoders invert the reference encoders; "
-         "filter chains up to the bound apply decoders in order with their own parameters (decoders stubbed); payload delimitation holds for symbolic payload bytes. Bounded; zlib/DCT/JBIG2 outside.",
+         "filter chains up to the bound apply decoders in order with their own parameters (decoders stubbed); payload delimitation holds for symbolic payload bytes; one LZWDecoder.feed step from every valid decoder state (table sizes at and around each code-width boundary, with / without a previous string) and a symbolic code follows the LZW specification (output, table growth, width switch, clear, end of data). Bounded; zlib/DCT/JBIG2 outside.",
          "4.C03"),
  "C14": ("bounded symbolic execution (symx, symbolic bytes) of the real PSBaseParser scanners and nexttoken() loop",
          "From every scanner state (with seeded partial tokens), for ALL byte strings of N symbolic bytes (256 values each) followed by end of input, the tokenizer raises nothing "
@@ -35,12 +35,12 @@ CLAIMS["C04"] = ("bounded symbolic execution (symx) of the real PDFPage.get_page
 CLAIMS["C05"] = ("bounded symbolic execution (symx, real arithmetic) of the real PDFPageInterpreter.do_* text/graphics-state operators, PDFTextDevice.render_string*, render_char and LTChar against a reference interpreter of ISO 32000-1 9.3-9.4",
          "For every program BT Tf + K operators chosen symbolically from 22 (K=2 quick, 3 thorough) + Tj with ALL operands, font size and glyph widths symbolic reals, each glyph's matrix, advance, "
          "bounding box (axis-aligned case), font and fill colour equal the text model's (polynomial identities discharged by normalisation or by z3); spacing/scaling/rise with TJ adjustments, a form "
-         "XObject with symbolic Matrix leaving the caller's state untouched, stream splitting and ill-typed operands are covered by further harnesses. Bounded; floats as reals.",
+         "XObject with symbolic Matrix leaving the caller's state untouched, stream splitting, ill-typed operands, and every program of 3 colour / q / Q operators (g rg k G RG K cs CS sc scn SC SCN; fill and stroke colour of the next glyph) are covered by further harnesses. Bounded; floats as reals.",
          "4.C05")
 CLAIMS["C16"] = ("bounded symbolic execution (symx, real arithmetic) of the real path-construction, painting, colour and q/Q/cm operators and PDFLayoutAnalyzer.paint_path against a reference model of ISO 32000-1 8.5",
          "For every program [q] state-op (w d G g RG rg K k cm, or a colour operator followed by sc/scn/SC/SCN) ; m|re + K construction operators chosen symbolically ; any painting operator ; [Q sc|SC] ; m l S, "
          "with ALL operands symbolic reals, each painted subpath yields one shape with the transformed end points in order, the right class (line / closed axis-aligned quadrilateral / curve), flags, line width, dash, "
-         "colours at painting time, q/Q restoring them, and n leaving no residue. K=2 quick, 3 thorough; floats as reals.",
+         "colours at painting time, q/Q restoring them, and n leaving no residue; five-point subpaths with all coordinates symbolic are classified line / rectangle / curve correctly; X ; q ; Y ; paint ; Q ; paint for every pair of state operators restores every component (CTM, width, dash, colours, colour spaces). K=2 quick, 3 thorough; floats as reals.",
          "4.C16")
 CLAIMS["C19"] = ("bounded symbolic execution (symx, symbolic pixels) of the real CCITTG4Parser coding steps, mode interpreter and ccittfaxdecode against the T.6 definitions and a reference T.6 encoder",
          "From every line state (all reference-line bits, a0, colour, coded prefix symbolic; W=8 quick, 10 thorough) one vertical / pass / horizontal step does what T.6 2.2 defines; for every bitmap of the bounded "
@@ -50,7 +50,7 @@ CLAIMS["C19"] = ("bounded symbolic execution (symx, symbolic pixels) of the real
 CLAIMS["C08"] = ("bounded symbolic execution (symx, real arithmetic) of the real LTPage.analyze / group_objects / group_textlines / group_textboxes on real LTChar objects with symbolic boxes",
          "For every position of two fixed-size glyphs (quick; also two general glyphs, degenerate zero-width/height glyphs with ordinary/blank/empty text and three glyphs in thorough) plus a non-text item, under each "
          "listed LAParams vector (defaults, boxes_flow=None, detect_vertical, negative, ...), analysis terminates, every item occurs exactly once, every line/box/group box is the union of its members, lines end in a "
-         "line break and are ordered inside boxes, boxes are numbered 0..n-1, container text is the concatenation. One z3 formula per path; bounded.",
+         "line break and are ordered inside boxes, boxes are numbered 0..n-1, container text is the concatenation; the lines-to-boxes stage alone (group_textlines + box.analyze) on 2 (3 thorough) one-glyph lines of either orientation: conservation, union, top-to-bottom / right-to-left order. One z3 formula per path; bounded.",
          "4.C08")
 CLAIMS["C09"] = ("bounded symbolic execution (symx, real arithmetic) of the real group_objects / LTTextLine*.add / find_neighbors / analyze on two objects with symbolic boxes and symbolic LAParams",
          "For ALL box coordinates and ALL line_overlap in [0,1), char_margin, word_margin: two consecutive glyphs share a line exactly when they overlap vertically by more than line_overlap x min height and are "
@@ -65,12 +65,12 @@ CLAIMS["C02"] = ("bounded symbolic execution (symx) of the real PDFXRefStream.ge
 CLAIMS["C17"] = ("bounded symbolic execution (symx) of the real NumberTree, PageLabels.labels, format_int_roman/alpha, lookup_name/get_dest, get_outlines and decode_text",
          "Number trees with symbolic keys flatten sorted; format_int_roman equals the reference for every symbolic value 1..3999 (digits discovered by forking); page labels for every range/style/St/prefix "
          "choice within the bound equal ISO 12.4.2 (alpha beyond 26 is a known finding); get_dest finds exactly the present keys in every tree shape with Limits and raises the not-found error otherwise; "
-         "get_outlines yields every conforming forest of 4 items in pre-order with levels, terminates on any redirected Next/First pointer, and does not deepen the stack along sibling chains.",
+         "get_outlines yields every conforming forest of 4 items in pre-order with levels, terminates on any redirected Next/First pointer, and does not deepen the stack along sibling chains; decode_text gives the ISO 32000-1 Annex D.2 character for every defined PDFDocEncoding code, byte-wise, and UTF-16BE after a BOM.",
          "4.C17")
 CLAIMS["C18"] = ("bounded symbolic execution (symx, symbolic bytes) of the real ImageWriter.export_image/_save_bmp/BMPWriter and PDFContentParser inline-image scanning",
          "For each listed geometry (1/8/24 bits, widths 1..9, heights 1..3) and ALL sample bytes the exported BMP, decoded by a reference BMP reader, gives back exactly the stored samples, with a file length "
          "matching its header; export_image chooses a writer without exception for every listed filter list / colour space / bit depth and writes JPEG data unchanged; for ALL inline image data of up to 4 symbolic "
-         "bytes not containing the end marker the data is captured completely and the following operators are read as without the image.",
+         "bytes not containing the end marker the data is captured completely and the following operators are read as without the image, also when the image sits in a later stream of a Contents array (5 layouts of earlier streams).",
          "4.C18")
 CLAIMS["C15"] = ("symbolic execution of the real CMapDB._load_data and ImageWriter._create_unique_image_name: CrossHair (symbolic str over all of Unicode, budgeted) plus symx (every name over an 8-letter hostile alphabet, exhaustive)",
          "With the filesystem replaced by a recording stub whose exists() answers are symbolic, every path that a CMap name makes the library probe or open lies directly inside one of the two character-map "
@@ -80,7 +80,7 @@ CLAIMS["C15"] = ("symbolic execution of the real CMapDB._load_data and ImageWrit
 CLAIMS["C11"] = ("symbolic execution (symx; strings as symbolic choices over a hostile alphabet) of the real TextConverter / XMLConverter.receive_layout and utils.enc",
          "For every glyph text, font name and figure name of length <= 3 over an alphabet of XML-special, quote, control, non-ASCII and ordinary characters: the XML output parses with an independent XML parser and "
          "reproduces page, boxes, figure name, fonts, sizes and character data of the tree; the text output is the in-order concatenation with a line break per box and a form feed per page; a binary sink with each "
-         "listed codec holds the same characters as a text sink; enc() round-trips through html.unescape without raw markup. Exhaustive over the alphabet bound (confirmed over all paths).",
+         "listed codec holds the same characters as a text sink; enc() round-trips through html.unescape without raw markup; with strip_control each of the 32 C0 controls and DEL inside a glyph text leaves well-formed XML. Exhaustive over the alphabet bound (confirmed over all paths).",
          "4.C11")
 CLAIMS["C06"] = ("symbolic execution (symx) of the real EncodingDB.get_encoding, name2unicode, PDFSimpleFont.to_unichr and PDFType1Font/PDFType3Font width handling",
          "For every Differences array of up to 3 items (codes and glyph names by symbolic choice) over each base encoding the result is the base table overlaid per ISO 9.6.6 and the shared tables are untouched; "
@@ -90,8 +90,9 @@ CLAIMS["C06"] = ("symbolic execution (symx) of the real EncodingDB.get_encoding,
 CLAIMS["C07"] = ("symbolic execution (symx) of the real IdentityCMap(.Byte).decode, CMap.decode + FileCMap.add_code2cid, CMapParser.do_keyword (bfchar/bfrange), get_widths/get_widths2 and the CMapDB caches",
          "For all byte strings up to 5 symbolic bytes the identity CMaps give the big-endian 2-byte (1-byte) codes and ignore a trailing odd byte; for every subset of the listed 1- and 2-byte codes and every string "
          "of the bound the trie walk segments by first byte; bfchar / bfrange (increment and array forms) with symbolic code and target bytes register code s+i -> target+i per ISO 9.10.3; W / W2 arrays in both "
-         "syntaxes with symbolic codes and widths give exactly the listed code->width entries; the CMapDB caches return the right map for every 3-call history. NOT claimed: the predefined CJK tables and the "
-         "'agrees with platform codecs' clause (static data), embedded TrueType cmap tables.",
+         "syntaxes with symbolic codes and widths give exactly the listed code->width entries; the CMapDB caches return the right map for every 3-call history; char_width / char_disp of the real PDFCIDFont equal W/DW (W2/DW2) for symbolic widths incl. 0; "
+         "TrueTypeFont.create_unicode_map on generated font files with a format-4 cmap of 1-3 segments, symbolic idDelta and glyphIdArray entries maps every code to the OpenType glyph. "
+         "NOT claimed: the predefined CJK tables and the 'agrees with platform codecs' clause (static data), TrueType cmap formats 0 and 2.",
          "4.C07")
 CLAIMS["C10"] = ("bounded symbolic execution (symx) of the security handlers: key derivation and password authentication (R2-R6) with md5/SHA/RC4/AES as z3 uninterpreted functions (equality of derived keys decided "
          "by congruence against ISO 32000-1 Algorithms 2-7 / ISO 32000-2 Algorithms 2.A, 2.B), and the plumbing around the primitives (init_params/is_*able, decipher_all + getobj, unpad_aes, per-object keys, V4 decrypt) with recording stubs",
@@ -105,7 +106,7 @@ CLAIMS["C13"] = ("symbolic execution (symx) of the typed accessors, tree/chain w
          "PARTIAL by design (fault sequences over whole real documents are whole-program runs): for every reference graph over 3 objects (self-loops, cycles, dangling) and every value kind each accessor terminates "
          "within a look-up bound and raises only the library family; number-tree Kids cycles and object-stream containment cycles terminate; rldecode on ALL byte strings of <= 3 bytes, the predictors on every "
          "geometry incl. 0 and the ASCII/LZW/CCITT filters on corrupt payloads raise only the library family; every single fault (28 sites x 12 kinds) and every truncation of an 8-object seed document keeps "
-         "extract_text inside the family, without hang or recursion exhaustion. Each counterexample is replayed through extract_text on a generated PDF.",
+         "extract_text inside the family, without hang or recursion exhaustion; the same document stored in an object stream + cross-reference stream: every truncation of both payloads and 49 ill-valued /N /First /W /Index /Size /Prev ... entries. Each counterexample is replayed through extract_text on a generated PDF.",
          "4.C13")
 CLAIMS["C12"] = ("symbolic execution (symx) of the operations that touch process-wide or cached state (get_encoding, use_cmap, interning, init_resources, get_font, resolve_all/decipher_all, CMapDB caches), plus small end-to-end call histories driven by symbolic choices",
          "PARTIAL by design: arbitrary histories and interleavings of extract_* calls are whole-program runs; the claim is reduced to frame conditions - each operation leaves the shared tables / the document's own "
